@@ -12,6 +12,7 @@ import (
 	fakeGalaxyCli "tkestack.io/galaxy/pkg/ipam/client/clientset/versioned/fake"
 	"tkestack.io/galaxy/pkg/ipam/floatingip"
 	"tkestack.io/galaxy/pkg/utils/nets"
+	"verifharness/ipamsim"
 	"verifharness/vcore"
 )
 
@@ -364,6 +365,13 @@ func checkC20(c c20Case, r *vcore.Rec) *vcore.Failure {
 			return f
 		}
 	}
+	// (3) the same texts through galaxy-ipam's configmap path: a text that decodes but is refused (a null entry in front of the
+	// pools) is rejected on EVERY poll and changes nothing; the accepted text is applied afterwards
+	if !poolsOverlap(c.Pools) && len(c.Pools) > 0 && (len(c.Probe) == 0 || c.Probe[0]%4 == 0) {
+		if f := checkConfigMapPath(confText, c, r); f != nil {
+			return f
+		}
+	}
 	// enumeration through the real IPAM (only when pools are disjoint, as the documentation requires)
 	if !poolsOverlap(c.Pools) {
 		r.Class("enumerated_by_ipam")
@@ -393,6 +401,63 @@ func checkC20(c c20Case, r *vcore.Rec) *vcore.Failure {
 			}
 		}
 	}
+	return nil
+}
+
+var c20BaseTopo = ipamsim.Topo{
+	Pools: []ipamsim.PoolT{{NodeSubnets: []string{"10.49.27.0/24"}, Subnet: "172.31.250.0/24", Gateway: "172.31.250.1", Ranges: [][2]uint32{{0xac1ffa02, 0xac1ffa05}}}},
+	Nodes: []ipamsim.NodeT{{Name: "n0", IP: "10.49.27.3"}},
+}
+
+func tableIPs(w *ipamsim.World) string {
+	alloc, unalloc := w.Tables()
+	var ips []string
+	for ip := range alloc {
+		ips = append(ips, ip)
+	}
+	for ip := range unalloc {
+		ips = append(ips, ip)
+	}
+	sort.Strings(ips)
+	return strings.Join(ips, ",")
+}
+
+func checkConfigMapPath(confText string, c c20Case, r *vcore.Rec) *vcore.Failure {
+	x, err := ipamsim.NewExec(&ipamsim.Case{Topo: c20BaseTopo}, &vcore.Rec{})
+	if err != nil {
+		return vcore.Failf("harness:init", "world construction failed: %v", err)
+	}
+	w := x.W
+	before := tableIPs(w)
+	refused := "[null," + confText[1:]
+	w.SetConfig(refused)
+	for poll := 1; poll <= 2; poll++ {
+		updated, err, _ := w.Reload()
+		if err == nil {
+			return vcore.Failf("c20:refused_text_reported_loaded", "poll %d of a configmap text that galaxy-ipam refuses (null entry) answered updated=%v without an error: %s",
+				poll, updated, refused)
+		}
+		if now := tableIPs(w); now != before {
+			return vcore.Failf("c20:refused_text_changed_state", "poll %d of a refused configmap text changed the configured IPs from [%s] to [%s]", poll, before, now)
+		}
+	}
+	w.SetConfig(confText)
+	if _, err, _ := w.Reload(); err != nil {
+		return vcore.Failf("c20:configure", "the accepted configuration was not applied through the configmap path: %v: %s", err, confText)
+	}
+	want := map[string]bool{}
+	for _, p := range c.Pools {
+		for _, rg := range p.Ranges {
+			for x := uint64(rg[0]); x <= uint64(rg[1]); x++ {
+				want[ipStr(uint32(x))] = true
+			}
+		}
+	}
+	alloc, unalloc := w.Tables()
+	if len(alloc)+len(unalloc) != len(want) {
+		return vcore.Failf("c20:enum", "after loading through the configmap path IPAM holds %d IPs, the configuration has %d (%s)", len(alloc)+len(unalloc), len(want), confText)
+	}
+	r.Class("configmap_path")
 	return nil
 }
 
